@@ -24,6 +24,12 @@ role "auth" (tested: server verifying a publickey USERAUTH_REQUEST)
     `pubkeys` set E (all eight subsets); ECDSA / Ed25519 re-labelled. The client is a puppet
     that builds the request by hand: the signature is made over the RFC 4252 7 blob that names D,
     hashed with Y's hash and labelled Y.
+    x the HISTORY of the connection: the request is the 1st, 2nd or 3rd publickey request on it. Earlier
+    requests (all for the same user): a signature-less query or a signed request with a corrupt signature,
+    for the SAME key blob naming an algorithm the server has enabled / the algorithm the final request
+    declares, or for another key. Every request of the connection is judged by the oracle below (a query
+    or a corrupt signature must never authenticate); a server that hangs up on an earlier request ends the
+    case there (counted).
 Oracle: accepted  <=>  Y == base(X or D)  and  base(X or D) in E  (cert suffix stripped)  and the
   signature really is one of algorithm Y by the key of the negotiated / declared type.
   kex: accepted = start_client returns and initial_kex_done; rejected = it raises and no NEWKEYS
@@ -47,8 +53,12 @@ RULE = (
     "other algorithm name, and foreign key + signature for every ordered pair of the 5 key types (labelled honestly / as negotiated); role kex "
     "additionally x the exchange in which the server starts to lie (1 = initial handshake, 2, 3 = re-exchanges after honest "
     "ones; initiators rotating over client/server in the enumeration, drawn in the repetitions); then hypothesis-drawn "
-    "repetitions varying key (rsa1024/rsa2048/rsa2048b), user name and the re-exchange history. non-trivial = signature "
-    "algorithm differs from the negotiated/declared one, or that one is disabled; distinct by full case"
+    "repetitions varying key (rsa1024/rsa2048/rsa2048b), user name and the re-exchange history; role auth additionally x the "
+    "connection's history: the request is sent after 0..2 earlier publickey requests (query / corrupt-signature request for the "
+    "same key blob naming an enabled or the declared algorithm, or for another key): query and failed request for the same blob naming an enabled algorithm "
+    "before every request whose declared algorithm is disabled, one rotating kind before the others, rotating two-request "
+    "histories, drawn histories in the repetitions. non-trivial = signature "
+    "algorithm differs from the negotiated/declared one, or that one is disabled, or the request is not the connection's first; distinct by full case"
 )
 
 RSA = ["ssh-rsa", "rsa-sha2-256", "rsa-sha2-512"]
@@ -250,21 +260,55 @@ def run_kex(ctx, case):
 # ----------------------------------------------------------------------------- role auth
 
 
+def _auth_request(session_id, user, req, final_case):
+    """USERAUTH_REQUEST payload for one request of a connection's history. `req` has the fields of a
+    case (alg, sigalg, hashalg, key, cert, wrongtype) plus signed (False = signature-less query),
+    spoil (one bit of the signature blob flipped) and other (a different key than the case's)."""
+    d, y = req["alg"], req["sigalg"]
+    if req.get("other"):
+        key = peers.keypool()[req["other"]]
+        blob = key.asbytes()
+    else:
+        key = _key(req)
+        if req.get("wrongtype"):
+            key = peers.keypool()[req["wrongtype"]]
+        blob = key.public_blob.key_blob if req.get("cert") else key.asbytes()
+    if not req.get("signed", True):
+        return peers.m_userauth_request(user, "ssh-connection", "publickey", R.boolean(False) + R.string(d) + R.string(blob))
+    signed = R.string(session_id) + bytes([50]) + R.string(user) + R.string("ssh-connection") + R.string("publickey") + R.boolean(True) + R.string(d) + R.string(blob)
+    sig = _sign(key, signed, y, req.get("hashalg")).asbytes()
+    if req.get("spoil"):
+        sig = sig[:-1] + bytes([sig[-1] ^ 1])
+    return peers.m_userauth_request(user, "ssh-connection", "publickey", R.boolean(True) + R.string(d) + R.string(blob) + R.string(sig))
+
+
+def _auth_expect(req, enabled):
+    d, y = req["alg"], req["sigalg"]
+    madewith = req.get("hashalg") or y
+    return bool(req.get("signed", True)) and not req.get("spoil") and y == base(d) and madewith == y and base(d) in enabled and not req.get("wrongtype")
+
+
 def run_auth(ctx, case):
-    d, y, enabled = case["alg"], case["sigalg"], case["enabled"]
+    """One connection: the requests of case["history"] (if any) and then the case's own request, each
+    judged by the same oracle - what the server answered before must not matter."""
+    enabled = case["enabled"]
     user = case.get("user", "u")
-    key = _key(case)
-    if case.get("wrongtype"):  # key blob and (genuine) signature of another type than declared
-        key = peers.keypool()[case["wrongtype"]]
-    blob = key.public_blob.key_blob if case.get("cert") else key.asbytes()
-    madewith = case.get("hashalg") or y
-    expect = y == base(d) and madewith == y and base(d) in enabled and not case.get("wrongtype")
-    nontriv = y != base(d) or madewith != y or base(d) not in enabled or bool(case.get("wrongtype"))
-    ctx.case(case, nontriv, ["auth", "auth:expect-accept" if expect else "auth:expect-reject", "auth:cert" if case.get("cert") else "auth:plain"])
+    history = [dict(h) for h in (case.get("history") or [])]
+    final = {k: v for k, v in case.items() if k not in ("history", "role", "enabled", "user")}
+    requests = history + [final]
+    d, y = final["alg"], final["sigalg"]
+    madewith = final.get("hashalg") or y
+    expect = _auth_expect(final, enabled)
+    nontriv = y != base(d) or madewith != y or base(d) not in enabled or bool(final.get("wrongtype")) or bool(history)
+    cls = ["auth", "auth:expect-accept" if expect else "auth:expect-reject", "auth:cert" if case.get("cert") else "auth:plain", "auth:requests-on-connection:%d" % len(requests)]
+    for h in history:
+        cls.append("auth-history:%s:%s:%s" % ("query" if not h.get("signed", True) else "failed-signed" if not _auth_expect(h, enabled) else "accepted", "other-key" if h.get("other") else "same-key", "enabled-alg" if base(h["alg"]) in enabled else "disabled-alg"))
+    ctx.case(case, nontriv, cls)
     srv = peers.RecordingServer({"check_auth_publickey": peers.AUTH_SUCCESSFUL}, allowed="publickey")
     skw = {"disabled_algorithms": {"pubkeys": [a for a in ALLKEYALGS if a not in enabled]}}
     ckw = {"disabled_algorithms": {"kex": [k for k in mitm.ALL_KEX if k != FAST_KEX]}}
     link, tc, ts = peers.make_pair(client_cls=peers.Puppet, server_cls=peers.VTransport, client_kw=ckw, server_kw=skw)
+    outcomes = []  # per request sent: (request, first reply type | "dead", authenticated afterwards)
     try:
         ce, se = peers.start_both(tc, ts, srv, timeout=30.0)
         if ce or se:
@@ -273,35 +317,55 @@ def run_auth(ctx, case):
         tc.send_raw(peers.m_service_request())
         if not tc.wait_log(lambda lg: any(e[1] == 6 for e in lg) or not ts.is_active(), 15.0) or not ts.is_active():
             raise core.HarnessError("no SERVICE_ACCEPT")
-        signed = R.string(tc.session_id) + bytes([50]) + R.string(user) + R.string("ssh-connection") + R.string("publickey") + R.boolean(True) + R.string(d) + R.string(blob)
-        sig = _sign(key, signed, y, case.get("hashalg")).asbytes()
-        req = peers.m_userauth_request(user, "ssh-connection", "publickey", R.boolean(True) + R.string(d) + R.string(blob) + R.string(sig))
-        tc.send_raw(req)
-        got = tc.wait_log(lambda lg: [e[1] for e in lg if e[1] in (51, 52, 1)] or (not ts.is_active() and ["dead"]), 15.0)
-        authed = bool(ts.is_authenticated())
+        for req in requests:
+            seen = len([e for e in tc.log if e[1] in (51, 52, 60, 1)])
+            if not ts.is_active() or any(e[1] == 1 for e in tc.log):
+                break  # the server hung up on an earlier request: nothing more can be asked
+            try:
+                tc.send_raw(_auth_request(tc.session_id, user, req, case))
+            except Exception:
+                break  # connection already torn down
+            got = tc.wait_log(lambda lg: [e[1] for e in lg if e[1] in (51, 52, 60, 1)][seen:] or (not ts.is_active() and ["dead"]), 15.0)
+            authed = bool(ts.is_authenticated())
+            outcomes.append((req, got[0] if got else None, authed))
+            if authed or not got or got[0] in (52, 1, "dead"):
+                break
         checked = [c for c in srv.calls if c[0] == "check_auth_publickey"]
     finally:
         peers.shutdown(tc, ts)
         mitm.cancel_timers(tc, ts)
-    if not got:
-        ctx.inconc("auth:no-reply")
-        return True
-    accepted = authed or got[0] == 52
-    fam = "rsa" if base(d) in RSA else "ec"
-    if expect and not (authed and got[0] == 52):
-        ctx.violation("auth-signature-algorithm", "%s:honest-signature-rejected" % fam, case, "reply %r authenticated=%s" % (got, authed))
-        return False
-    if not expect and accepted:
-        why = _why(fam, case, d, y, enabled)
-        ctx.violation(
-            "auth-signature-algorithm",
-            "%s:%s" % (fam, why),
-            case,
-            "request declares %s, server enables pubkeys %r, signature labelled %s (made with %s%s): reply %r, is_authenticated()=%s, check_auth_publickey called %d time(s)"
-            % (d, enabled, y, madewith, ", key " + case["wrongtype"] if case.get("wrongtype") else "", got, authed, len(checked)),
-        )
-        return False
-    return True
+    if len(outcomes) < len(requests):
+        ctx.count("auth-history:final-request-not-reached(server hung up or accepted before)")
+    ok = True
+    for i, (req, got, authed) in enumerate(outcomes):
+        is_final = req is final
+        if got is None:
+            ctx.inconc("auth:no-reply")
+            return ok
+        rd, ry = req["alg"], req["sigalg"]
+        fam = "rsa" if base(rd) in RSA else "ec"
+        want = _auth_expect(req, enabled)
+        accepted = authed or got == 52
+        after = ":after-earlier-requests" if i > 0 else ""
+        if want and not (authed and got == 52):
+            ctx.violation("auth-signature-algorithm", "%s:honest-signature-rejected%s" % (fam, after), case, "request #%d: reply %r authenticated=%s; replies so far %r" % (i + 1, got, authed, [o[1] for o in outcomes]))
+            return False
+        if not want and accepted:
+            if not req.get("signed", True):
+                why = "signature-less-query-authenticated"
+            elif req.get("spoil"):
+                why = "corrupt-signature-accepted"
+            else:
+                why = _why(fam, req, rd, ry, enabled)
+            ctx.violation(
+                "auth-signature-algorithm",
+                "%s:%s%s" % (fam, why, after),
+                case,
+                "request #%d of the connection (replies to the earlier ones: %r) declares %s, server enables pubkeys %r, signature labelled %s (made with %s%s): reply %r, is_authenticated()=%s, check_auth_publickey called %d time(s)"
+                % (i + 1, [o[1] for o in outcomes[:i]], rd, enabled, ry, req.get("hashalg") or ry, ", key " + req["wrongtype"] if req.get("wrongtype") else "", got, authed, len(checked)),
+            )
+            return False
+    return ok
 
 
 # ----------------------------------------------------------------------------- domain
@@ -349,8 +413,76 @@ def domain():
     pats = {2: [["c"], ["s"]], 3: [["c", "s"], ["s", "c"], ["s", "s"], ["c", "c"]]}
     for j, c in enumerate([c for c in cases if c["role"] == "kex"]):
         for k in (2, 3):
+            if k == 3 and j % 3 and not c.get("wrongtype"):
+                continue  # (third exchange: every third case; the count went to the request histories of role auth)
             cases.append(dict(c, rekeys=pats[k][(j + j // 3) % len(pats[k])]))
+    # role auth: the same requests as the 2nd / 3rd request of a connection
+    cases += history_domain(cases)
     return cases
+
+
+# ---- histories on one connection (role auth)
+
+HISTORY_KINDS = ["query:same-key:enabled-alg", "query:same-key:declared-alg", "failed-signed:same-key:enabled-alg", "failed-signed:other-key", "query:other-key"]
+OTHERKEYS = ["ed25519b", "ecdsa256b", "rsa1024", "rsa2048b"]
+
+
+def _native(kname):
+    return list(RSA) if kname.startswith("rsa") else [a for a, k in EC.items() if k == kname.rstrip("b")]
+
+
+def history_entry(final, kind):
+    """One earlier request of the same connection, derived from the final request: same key blob
+    naming an algorithm the server has enabled (or the one the final request declares), or another
+    key; a signature-less query, or a signed request whose signature is corrupt (-> FAILURE)."""
+    enabled = final["enabled"]
+    what, whose, *rest = kind.split(":")
+    h = {"signed": what != "query"}
+    if what == "failed-signed":
+        h["spoil"] = True
+    if whose == "other-key":
+        own = final.get("wrongtype") or final["key"]
+        cands = [(a, k) for k in OTHERKEYS if k != own for a in _native(k)]
+        alg, kname = next(((a, k) for a, k in cands if a in enabled), cands[0])
+        h.update({"alg": alg, "sigalg": alg, "other": kname})
+        return h
+    for f in ("key", "cert", "wrongtype"):
+        if final.get(f):
+            h[f] = final[f]
+    if rest == ["declared-alg"]:
+        alg = final["alg"]
+    else:
+        alg = next((a for a in _native(final.get("wrongtype") or final["key"]) if a in enabled), None)
+        if alg is None:
+            alg = base(final["alg"])
+        if final.get("cert"):
+            alg += CERT
+    h.update({"alg": alg, "sigalg": base(alg)})
+    return h
+
+
+def with_history(final, kinds):
+    return dict(final, history=[history_entry(final, k) for k in kinds])
+
+
+def history_domain(cases):
+    """Every final request whose declared algorithm is disabled after a query and after a failed signed
+    request for the same key blob naming an enabled algorithm (plus, where the signature matches the
+    declared algorithm, a third rotating kind and a two-request history); every other request after one
+    rotating kind of earlier request."""
+    out = []
+    auth = [c for c in cases if c["role"] == "auth"]
+    pairs = [(a, b) for a in HISTORY_KINDS for b in HISTORY_KINDS if a != b]
+    for j, c in enumerate(auth):
+        if base(c["alg"]) not in c["enabled"]:
+            out.append(with_history(c, [HISTORY_KINDS[0]]))
+            out.append(with_history(c, [HISTORY_KINDS[2]]))
+            if c["sigalg"] == base(c["alg"]):
+                out.append(with_history(c, [HISTORY_KINDS[(1, 3, 4)[j % 3]]]))
+                out.append(with_history(c, list(pairs[(7 * j + 3) % len(pairs)])))
+        else:
+            out.append(with_history(c, [HISTORY_KINDS[j % len(HISTORY_KINDS)]]))
+    return out
 
 
 def _dispatch(ctx, case):
@@ -369,14 +501,15 @@ def run(ctx):
         _dispatch(ctx, c)
     else:
         ctx.exhaustive = True
-        ctx.note("exhaustive_over", "role x algorithm x signature algorithm x enabled subset x (kex) exchange the lie starts in 1..3 (%d cases) with one key per type and one initiator history per case" % len(dom))
+        ctx.note("exhaustive_over", "role x algorithm x signature algorithm x enabled subset x (kex) exchange the lie starts in 1..2 (3: every third case) x (auth) rotating request histories (%d cases) with one key per type and one initiator history per case" % len(dom))
     # generated repetitions: other RSA keys, other user names
-    rsa_cases = [c for c in dom if base(c["alg"]) in RSA and not c.get("cert") and not c.get("wrongtype") and not c.get("rekeys")]
+    rsa_cases = [c for c in dom if base(c["alg"]) in RSA and not c.get("cert") and not c.get("wrongtype") and not c.get("rekeys") and not c.get("history")]
     gen = st.tuples(
         st.sampled_from(rsa_cases),
         st.sampled_from(["rsa1024", "rsa2048", "rsa2048b"]),
         st.text(alphabet="abcxyz-_.0123456789é", min_size=1, max_size=12),
         st.lists(st.sampled_from(["c", "s"]), min_size=0, max_size=2),
+        st.lists(st.sampled_from(HISTORY_KINDS), min_size=0, max_size=2),
     )
 
     def body(t):
@@ -384,6 +517,8 @@ def run(ctx):
         c["key"] = t[1]
         if c["role"] == "auth":
             c["user"] = t[2]
+            if t[4]:
+                c = with_history(c, t[4])
         elif t[3]:
             c["rekeys"] = list(t[3])
         _dispatch(ctx, c)
